@@ -98,6 +98,8 @@ def plain(items):
             out.append(it.ch + it.tail)
         elif k == 'entity':
             out.append(it.dec)
+        elif k == 'emphsrc':
+            out.append(re.sub(r'[*_]', '', it.s))
     return ''.join(out)
 
 
@@ -159,6 +161,9 @@ def inline_html(items, res=None):
             out.append(esc(it.ch + it.tail))
         elif k == 'entity':
             out.append(esc(it.dec))
+        elif k == 'emphsrc':
+            from ..oracle import emphasis
+            out.append(emphasis.model(it.s))
         else:
             raise AssertionError(k)
     return ''.join(out)
